@@ -840,6 +840,21 @@ func step(st *hstate, f []string) []string {
 				return e(err)
 			}
 		}
+		if len(f) > 2 && f[2] == "cut" {
+			// ... and it was killed while it copied the log file of the newest segment: that file holds only the first
+			// half of its source and carries the time of the kill, not the source's
+			if sgs := listSegs(st.dir); len(sgs) > 0 {
+				sg := sgs[len(sgs)-1]
+				dst := filepath.Join(tgt, filepath.Base(sg.Log))
+				if b, err := os.ReadFile(dst); err == nil && len(b) > 1 {
+					if err := os.WriteFile(dst, b[:len(b)/2], 0600); err != nil {
+						return e(err)
+					}
+					now := time.Now().Add(time.Hour)
+					_ = os.Chtimes(dst, now, now)
+				}
+			}
+		}
 		return []string{"ok"}
 	case "bkobs":
 		// bkobs <name> <ro>: Check the backup dir, open it and print a full observation
